@@ -331,15 +331,22 @@ def inline_extracted_helpers(crate):
             if len(params) != len(args) or any(p_.get("k") != "Bind" for p_ in params):
                 continue
             leaves_early = uses_try = False
+            try_rets = set()
             for n in walk(H["body"], into_closures=False):
-                if n.get("k") == "Ret":
-                    leaves_early = True
-                elif n.get("k") == "Match" and str(n.get("src", "")).startswith("TryDesugar"):
+                if n.get("k") == "Match" and str(n.get("src", "")).startswith("TryDesugar"):
                     uses_try = True
+                    for a_ in n.get("arms", []):
+                        for x_ in walk(a_["body"], into_closures=False):
+                            if x_.get("k") == "Ret":
+                                try_rets.add(id(x_))           # the `return` that `?` itself stands for
+            for n in walk(H["body"], into_closures=False):
+                if n.get("k") == "Ret" and id(n) not in try_rets:
+                    leaves_early = True
             if leaves_early:
                 continue
-            if uses_try and not _tried_at_call_site(F, H, call):
-                continue        # a `?` inside the helper is the caller's `?` only if the call itself is `?`-ed at once, with the same error type
+            if uses_try and not _tried_at_call_site(F, H, call) and not _is_result_of(F, H, call):
+                continue        # a `?` inside the helper is the caller's `?` only if the call itself is `?`-ed at once (same error type), or if the
+                                # helper's result IS the caller's result (the call in return position, same type)
             off = 1000000 * (len(done) + 1)
             for n in _all_nodes(H["body"]) + _all_nodes(params):
                 if (n.get("k") == "Bind" or (n.get("k") == "Path" and n.get("r") == "local")) and isinstance(n.get("id"), int):
@@ -433,6 +440,26 @@ def _tried_at_call_site(F, H, call):
                 rec(v, in_closure)
     rec(F["body"], False)
     return found[0]
+
+
+def _is_result_of(F, H, call):
+    """the call is in return position of F (the tail of its body, through blocks, `if` / `match` arms) and both return the same type"""
+    if F.get("dk") not in ("Fn", "AssocFn") or not H.get("output") or H.get("output") != F.get("output"):
+        return False
+
+    def tail(e):
+        e = strip(e)
+        if e is call:
+            return True
+        k = e.get("k")
+        if k == "Block":
+            return "expr" in e["b"] and tail(e["b"]["expr"])
+        if k == "Match" and e.get("src") == "Normal":
+            return any(tail(a["body"]) for a in e["arms"])
+        if k == "If":
+            return tail(e["then"]) or ("else" in e and tail(e["else"]))
+        return False
+    return tail(F["body"])
 
 
 def _statement_evaluating_first(root, call):
